@@ -56,6 +56,11 @@ type c10Attempt struct {
 	Code    int           `json:"code,omitempty"`
 	BodyLen int           `json:"body_len"`
 	Target  string        `json:"-"`
+	// the context the pool handed to the transport, looked at when the attempt STARTS
+	// (no timing involved: it is a state of the context, not a measured duration)
+	ExpiredAtStart bool          `json:"time_limit_expired_at_start,omitempty"` // ctx.Err() == DeadlineExceeded before anything was sent
+	HasDeadline    bool          `json:"has_deadline,omitempty"`
+	Deadline       time.Duration `json:"deadline_ns,omitempty"` // the context's deadline, relative to t0
 }
 
 type c10State struct {
@@ -107,8 +112,22 @@ func c10Transport(r *http.Request, _ *http.Client) (*http.Response, error) {
 	if idx < len(st.script) {
 		step = st.script[idx]
 	}
-	st.attempts = append(st.attempts, c10Attempt{Index: idx, Start: time.Since(st.t0), Kind: step.Kind, Code: step.Code})
+	att := c10Attempt{Index: idx, Start: time.Since(st.t0), Kind: step.Kind, Code: step.Code}
+	if dl, ok := r.Context().Deadline(); ok {
+		att.HasDeadline, att.Deadline = true, dl.Sub(st.t0)
+	}
+	// Like http.Client.Do, the scripted transport sends nothing when the time limit of the
+	// context it is given has expired already: the call fails at once with the context's
+	// error, whatever the backend would have answered.
+	att.ExpiredAtStart = r.Context().Err() == stdcontext.DeadlineExceeded
+	if att.ExpiredAtStart {
+		att.End = att.Start
+	}
+	st.attempts = append(st.attempts, att)
 	st.mu.Unlock()
+	if att.ExpiredAtStart {
+		return nil, stdcontext.DeadlineExceeded
+	}
 
 	n := 0
 	if r.Body != nil {
@@ -401,10 +420,54 @@ func c10ExpectFinal(last c10Attempt) (result string, status int, body string) {
 	return "?", 0, ""
 }
 
+// c10LimitFresh: was the time limit of attempt i (re)started for this attempt, i.e. does the
+// context's deadline lie at least `timeout` after the moment the previous attempt had returned
+// (attempt 0: after the client request was created)?  The pool arms the limit after that
+// moment, so for a per-attempt limit this holds whatever the machine load (the comparison is
+// a LOWER bound on the deadline); it fails when the limit is a budget that started earlier.
+func c10LimitFresh(pool *c10PoolCfg, attempts []c10Attempt, i int) bool {
+	if pool.Timeout == "" || !attempts[i].HasDeadline {
+		return false
+	}
+	limit, err := time.ParseDuration(pool.Timeout)
+	if err != nil {
+		panic(err)
+	}
+	var prevEnd time.Duration
+	if i > 0 {
+		prevEnd = attempts[i-1].End
+	}
+	return attempts[i].Deadline >= prevEnd+limit
+}
+
+// c10ExpiredStarts lists the attempts that were handed a context whose time limit had expired
+// before the attempt started although that limit was NOT a fresh per-attempt one (A7); an
+// expired but fresh limit means the machine was too slow to reach the transport within the
+// limit: counted in `slow`, never a verdict.
+func c10ExpiredStarts(pool *c10PoolCfg, attempts []c10Attempt) (stale []int, slow int) {
+	for i, a := range attempts {
+		if !a.ExpiredAtStart {
+			continue
+		}
+		if c10LimitFresh(pool, attempts, i) {
+			slow++
+		} else {
+			stale = append(stale, i)
+		}
+	}
+	return
+}
+
 // c10FinalOK: does the client see the outcome of the last attempt that was made (A5/A6)?
 func c10FinalOK(pool *c10PoolCfg, last c10Attempt, res *c10Result) bool {
 	wr, ws, wb := c10ExpectFinal(last)
 	if res.Result == wr && res.Status == ws && res.Body == wb {
+		return true
+	}
+	if last.ExpiredAtStart && last.Index < len(res.Attempts) && c10LimitFresh(pool, res.Attempts, last.Index) &&
+		res.Result == resultTimeout && res.Status == 408 && res.Body == "" {
+		// the machine was so slow that a fresh per-attempt limit expired before the transport
+		// was reached: that attempt timed out — wall-clock upper bounds are not judged
 		return true
 	}
 	if last.Kind == "neterr" && res.CancelAsked && res.Result == resultClientError && res.Status == 499 && res.Body == "" {
